@@ -10,6 +10,7 @@ Template directives (a line whose first non-blank characters are `//@`):
   //@ item <path> [nopub]                 extract a struct/enum/type/const/fn verbatim (auto rules only)
   //@ fn <path> [ret=<name>] [nopub] [name=<newname>]
   //@   attr <text>                        text put in front of the fn (verifier attributes only)
+  //@   hoist ~struct Map                  delete a nested item from the body (it is extracted separately at module level)
   //@   spec                               following lines: requires/ensures/decreases, put after the signature
   //@   enter                              following lines (ghost only): put right after the body's opening brace
   //@   loop <n>                           following lines: put in front of the body brace of the n-th loop
@@ -136,6 +137,16 @@ def process_fn(ctx, f, comps, opts, subs):
     if "unsafe" in it.quals or re.search(r"\bunsafe\b", it.text):
         raise Lost("unsafe code inside extracted item %s" % where)
     text = it.text
+    # R-hoist: nested items (a struct / impl / fn declared inside the body) that the template extracts
+    # separately at module level are removed from the body; located by item, not by text pattern.
+    for comp in subs.get("hoist", []):
+        mm = re.match(r"^~?\s*([a-z]+)(.*)$", comp.strip(), re.S)
+        kw, want = mm.group(1), rsx.norm(mm.group(2))
+        cands = [x for x in rsx.find_items(text, deep=True) if x.kw == kw and x.name == want and x.start > 0]
+        if len(cands) != 1:
+            raise Lost("hoist: nested item %r found %d times in %s" % (comp, len(cands), where))
+        text = text[:cands[0].start] + text[cands[0].end:]
+        log.append({"rule": "R-hoist", "item": comp.strip(), "why": "nested item is extracted separately at module level (scoping only)"})
     text = apply_rewrites(text, subs["rewrite"], log, where)
     text = rsx.strip_attributes(text, log)
     parts = rsx.fn_parts(text)
@@ -348,6 +359,9 @@ def expand(ctx, path, out, depth=0):
                         subs["enter"] = ""
                     elif c2 == "attr":
                         subs["attr"].append(r2)
+                        cur = None
+                    elif c2 == "hoist":
+                        subs.setdefault("hoist", []).append(r2)
                         cur = None
                     elif c2 == "loop":
                         cur = ("loop", int(r2))
